@@ -26,6 +26,43 @@ extern "C" int sim_main(int argc, char** argv) {
       a.for_all([&f](const size_t idx, int& v) { f << " " << idx; });
       hc::out(f.str());
     }
+  } else if (mode == "resize") {   // array(a) then resize(b): the layout must be the one of a fresh array(b)
+    auto as = hc::longs(argv[2]); auto bs = hc::longs(argv[3]);
+    for (size_t k = 0; k < as.size(); ++k) {
+      long a0 = as[k], len = bs[k];
+      ygm::container::array<int> a(world, (size_t)a0);
+      a.resize((size_t)len);
+      hc::out("begin " + std::to_string(k));
+      std::ostringstream o; o << "owners " << k;
+      for (long i = 0; i < len; ++i) o << " " << a.owner(i);
+      hc::out(o.str());
+      std::ostringstream m; m << "mine " << k;
+      for (long i = 0; i < len; ++i) if (a.is_mine(i)) m << " " << i;
+      hc::out(m.str());
+      std::ostringstream f; f << "forall " << k;
+      a.for_all([&f](const size_t idx, int& v) { f << " " << idx; });
+      hc::out(f.str());
+      hc::out("size " + std::to_string(k) + " " + std::to_string(a.size()));
+    }
+  } else if (mode == "stored") {   // data for a key lives only on its owner: what each rank holds after a barrier
+    long nkeys = atol(argv[2]); hc::rng g(atol(argv[3]));
+    ygm::container::map<int64_t, int> mi(world); ygm::container::set<std::string> ss(world);
+    ygm::container::disjoint_set<int64_t> ds(world);
+    for (long k = 0; k < nkeys; ++k) {
+      int64_t key = (int64_t)g.below(4 * nkeys + 1);
+      if ((k + world.rank()) % 2 == 0) { mi.async_insert(key, (int)k); ss.async_insert("s" + std::to_string(key)); }
+      ds.async_union(key, (int64_t)g.below(4 * nkeys + 1));
+    }
+    world.barrier();
+    std::vector<int64_t> probe; for (long k = 0; k < 40; ++k) probe.push_back((int64_t)g.below(4 * nkeys + 1));
+    ds.all_find(probe);          // path compression messages must also go to the owner
+    world.barrier();
+    std::ostringstream a, b, c;
+    a << "map"; mi.for_all([&](const int64_t& k, int& v) { a << " " << k << ":" << mi.owner(k); });
+    b << "set"; ss.for_all([&](const std::string& k) { b << " " << k << ":" << ss.owner(k); });
+    c << "dset"; ds.for_all([&](const int64_t& k, const int64_t& rep) { c << " " << k << ":" << std::hash<int64_t>{}(k) % (size_t)world.size(); });
+    hc::out(a.str()); hc::out(b.str()); hc::out(c.str());
+    hc::out("sizes " + std::to_string(mi.size()) + " " + std::to_string(ss.size()) + " " + std::to_string(ds.size()));
   } else {  // hash owners of generated keys, through every hash-partitioned container
     long nkeys = atol(argv[2]); hc::rng g(atol(argv[3]));
     ygm::container::map<int64_t, int> mi(world); ygm::container::map<std::string, int> ms(world);
